@@ -815,3 +815,6 @@ def workload(ctx):
     ctx.floor("context_values", 5000)
     ctx.floor("handler:DistributeMapper.map_power", 500)
     ctx.floor("handler:TermCollector.split_term", 1000)
+
+
+RULE = RULE + '  Later additions: operand lists holding one object several times; rewrite objects after a caught failure (same result and form as a fresh object); power sequences on one mapper.'
